@@ -467,7 +467,32 @@ func c04Link(st *c04State) {
 			inner := inners[r.Intn(len(inners))]
 			var frame []byte
 			class := ""
-			switch r.Intn(7) {
+			switch r.Intn(8) {
+			case 7:
+				// what the fragment carries is itself a link-protocol packet (nested once or twice),
+				// whole or as the two halves of a fragmented message
+				class = "nested-lp"
+				nested := tlvwalk.TLV(0x64, tlvwalk.TLV(0x50, inner))
+				if r.Intn(3) == 0 {
+					nested = tlvwalk.TLV(0x64, tlvwalk.TLV(0x50, nested))
+				}
+				if r.Intn(3) == 0 {
+					nested = tlvwalk.TLV(0x64, tlvwalk.TLV(0x50, nil)) // an LpPacket with an empty fragment inside
+				}
+				frame = tlvwalk.TLV(0x64, tlvwalk.TLV(0x50, nested))
+				if r.Intn(3) == 0 && len(nested) > 2 {
+					// send it as fragment 0 of 2 now; the other half follows as the next frame of this face
+					seqBase := uint64(7000 + 10*fi)
+					half := len(nested) / 2
+					f0 := append(append(tlvwalk.TLV(0x51, u64be(seqBase)), tlvwalk.TLV(0x52, []byte{0})...), tlvwalk.TLV(0x53, []byte{2})...)
+					f0 = append(f0, tlvwalk.TLV(0x50, nested[:half])...)
+					f1 := append(append(tlvwalk.TLV(0x51, u64be(seqBase+1)), tlvwalk.TLV(0x52, []byte{1})...), tlvwalk.TLV(0x53, []byte{2})...)
+					f1 = append(f1, tlvwalk.TLV(0x50, nested[half:])...)
+					first := tlvwalk.TLV(0x64, f0)
+					ff := first
+					st.guarded(id, "handleIncomingFrame", "frame", class, len(ff), func() string { return h.HexFull(ff) }, func() { face.VerifRecv(ls, ff) })
+					frame = tlvwalk.TLV(0x64, f1)
+				}
 			case 0:
 				class = "bare"
 				frame = append([]byte{}, inner...)
